@@ -1042,6 +1042,30 @@ func c06Run(r *engine.Run) {
 				}
 			}
 		}
+		// non-ASCII match texts (a text is found in a value by its bytes, whatever their number per character), and
+		// property time ranges whose bounds lie centuries away (the customary "for ever": 9999-12-31)
+		uobj := rComp{Name: "VCALENDAR", Props: []rProp{{Name: "VERSION", Value: "2.0"}}, Children: []rComp{{Name: "VEVENT", HasTime: true, Instances: [][2]int64{{start.Unix(), start.Add(time.Hour).Unix()}},
+			Props: []rProp{{Name: "DTSTART", Value: c06fmt(start)}, {Name: "DURATION", Value: "PT1H"}, {Name: "SUMMARY", Value: "Café 会議室予約 \U0001F382"}, {Name: "LOCATION", Value: "\U0001F382"}}}}}
+		for _, pn := range []string{"SUMMARY", "LOCATION"} {
+			for _, tx := range []string{"Café", "会議", "\U0001F382", "é", "室予約 \U0001F382", "cafe", "会议", "\U0001F383"} {
+				for _, neg := range []bool{false, true} {
+					tm := caldav.TextMatch{Text: tx, NegateCondition: neg}
+					f := caldav.CompFilter{Name: "VCALENDAR", Comps: []caldav.CompFilter{{Name: "VEVENT", Props: []caldav.PropFilter{{Name: pn, TextMatch: &tm}}}}}
+					c06Check(sh, "text-match-non-ascii", base+int64(k), f, uobj, fmt.Sprintf("prop=%s.negate=%v", pn, neg))
+					sh.Nontrivial(fmt.Sprintf("S3U/%d", k))
+					k++
+				}
+			}
+		}
+		far0, far1 := time.Date(1600, 1, 1, 0, 0, 0, 0, time.UTC), time.Date(9999, 12, 31, 23, 59, 59, 0, time.UTC)
+		for _, rg := range [][2]time.Time{{far0, far1}, {start.Add(-time.Hour), far1}, {far0, start}, {far0, start.Add(time.Second)}, {time.Date(2300, 1, 1, 0, 0, 0, 0, time.UTC), far1}, {far0, time.Date(1700, 1, 1, 0, 0, 0, 0, time.UTC)}, {start, far1}, {{}, far1}, {far0, {}}} {
+			f := caldav.CompFilter{Name: "VCALENDAR", Comps: []caldav.CompFilter{{Name: "VEVENT", Props: []caldav.PropFilter{{Name: "DTSTART", Start: rg[0], End: rg[1]}}}}}
+			c06Check(sh, "prop-time-range-far-bounds", base+int64(k), f, uobj, "far")
+			k++
+			f2 := caldav.CompFilter{Name: "VCALENDAR", Comps: []caldav.CompFilter{{Name: "VEVENT", Start: rg[0], End: rg[1]}}}
+			c06Check(sh, "comp-time-range-far-bounds", base+int64(k), f2, uobj, "far")
+			k++
+		}
 		r.Merge(sh)
 		base += int64(k)
 	}
